@@ -203,6 +203,15 @@ pub fn exec(sc: &Sc) -> RunResult {
             _ => {}
         }
     }
+    {
+        let mut number_of: BTreeMap<u64, u64> = BTreeMap::new();
+        for k in &keys {
+            if *number_of.entry(k.1).or_insert(k.0) != k.0 {
+                cx.res.harness_error = Some(format!("inconsistent scenario: block hash id {} is given two different numbers", k.1));
+                return cx.finish();
+            }
+        }
+    }
     let bnh = |k: &Key| BlockNumberAndHash::new(k.0, h32(SPACE, k.1));
     let pidx = |p: u64| -> PeerIndex { (p as usize).into() };
     let key_of: BTreeMap<Vec<u8>, Key> = keys
